@@ -199,6 +199,16 @@ func TestDrv_Attack(t *testing.T) {
 	for i := 0; i < nBig; i++ {
 		scripts = append(scripts, randomScript(r, len(scripts), true))
 	}
+	// a pool of thousands of initial workers (tens of thousands in the thorough tier: the monitor's bookkeeping in TLC is
+	// quadratic in the number of hits in flight, 20000 take five minutes), every one of them busy at once: the capacity
+	// asked for is there
+	huge := []int{3000}
+	if thorough() {
+		huge = append(huge, 20000)
+	}
+	for i, w := range huge[:min(len(huge), int(envInt("VERIF_HUGE", 2)))] {
+		scripts = append(scripts, &Script{ID: len(scripts), Workers: w, MaxWorkers: w + i, Waits: []int{0}, Lat: []int{30}, Cons: []int{0}, MaxHits: w + i})
+	}
 	const P = 16
 	t.Run("shards", func(t *testing.T) {
 		for s := 0; s < P; s++ {
